@@ -4,6 +4,7 @@ import PgBifrost.Proofs.LedgerSpecSound
 import PgBifrost.Proofs.ClientC02
 import PgBifrost.Proofs.SysExample
 import PgBifrost.Proofs.LedgerSrc
+import PgBifrost.Gen.ClientSrc
 /-!
 # C02 — the ledger never wedges (property theorems)
 
@@ -224,5 +225,17 @@ theorem ledger_model_is_source :
     -- commit position, remove every collected entry) is the model's `emit`
     (∀ s, PgBifrost.Gen.EmitSrc.emitProgress s = PgBifrost.Ledger.emit s) :=
   ⟨PgBifrost.LedgerSrcProofs.updateSeen_eq, PgBifrost.LedgerSrcProofs.updateWritten_eq, PgBifrost.LedgerSrcProofs.remove_eq, PgBifrost.LedgerSrcProofs.emit_eq⟩
+
+/-- `recoverFromErrorResponse`, translated statement by statement from the source on this run, is the model's
+`recover` (variant `fixedC`, the code after the repair of F2/F3): a synthetic COMMIT is forwarded only while a
+delivery is open, it clears that flag, it is stamped with the highest commit position (the overall progress when
+that is still 0, never a zero position), then close, a plain connection, IdentifySystem, restart position and flags,
+close. -/
+theorem recovery_as_in_source (s : PgBifrost.Client.State) (pos : Nat) :
+    PgBifrost.Gen.ClientSrc.recover s pos = PgBifrost.Client.recover .fixedC s pos := by
+  unfold PgBifrost.Gen.ClientSrc.recover PgBifrost.Client.recover PgBifrost.Client.recoveryFwd
+    PgBifrost.Client.recoverState PgBifrost.Client.fixedLsn PgBifrost.Client.mgrClose PgBifrost.Client.getConnPlain
+  cases ho : s.openFlag <;> by_cases hh : s.highest = 0 <;>
+    simp [Id.run, pure, ho, hh, PgBifrost.Client.needDial]
 
 end PgBifrost.Props.C02
